@@ -153,6 +153,14 @@ HEmbed ==
            /\ EmbedDomain(<<A>>, dims, sel)
            /\ SameMat(Embed(<<A>>, dims, sel), EmbedKept(A, dims, Kset))
            /\ SameMat(KronSeq(GenOps(<<A>>, dims, sel)), EmbedKept(A, dims, Kset))
+      \* one operator overlaid on the block between two targeted sites, the site in between included
+      /\ (Len(sel) = 2 /\ sel[2] = sel[1] + 2) =>
+           LET blk == <<sel[1], sel[1] + 1, sel[2]>>
+               B   == GenMat(IProd(Sub(dims, blk)), IProd(Sub(dims, blk)), seed + 19)
+           IN  (dims[sel[1]] > 1 /\ dims[sel[2]] > 1) =>
+                 /\ EmbedDomain(<<B>>, dims, sel)
+                 /\ SameMat(Embed(<<B>>, dims, sel), EmbedKept(B, dims, SeqRange(blk)))
+                 /\ SameMat(KronSeq(GenOps(<<B>>, dims, sel)), EmbedKept(B, dims, SeqRange(blk)))
       \* rows of an embedded operator through the ownership arithmetic of kron on the factors
       /\ (Len(sel) >= 1) =>
            LET f  == GenOps(one, dims, sel)
